@@ -79,7 +79,9 @@ def showErr : BuildErr → String
   | .fuel => "no-termination"
 
 def hdrOk (h : Hdr) : Bool :=
-  h.A.wfb && h.kind ≤ 3 && h.nt ≥ 1 && h.prm.max_levels ≥ 1 && h.prs.all (fun pr => pr.1.wfb && pr.2.wfb)
+  h.A.wfb && h.kind ≤ 3 && h.nt ≥ 1 && h.prm.max_levels ≥ 1 && h.prs.all (fun pr => pr.1.wfb && pr.2.wfb) &&
+  -- `s = float(1/over_interp)`: plain aggregation with over_interp 1, 1.5 (scalar default; `1/1.5f = 11184811/2^24`) or 2 (block default); no such parameter otherwise
+  (if h.kind = 0 then h.s == 1 || h.s == 11184811/16777216 || h.s == 1/2 else h.s == 1)
 
 /-- END-TO-END policy: the transfer operators come from the coarsening MODELS of C04 (plain / smoothed aggregation
 with the library's default parameters eps_strong = 0.08f, relax = 1.0f), not from a recording -/
